@@ -3,7 +3,7 @@
 import random
 import vlib
 import c07_gen
-from nodegen import random_history, random_history_api
+from nodegen import random_history, random_history_api, iso_request
 from nodesim import parse_result
 
 MAX_DATA = 223          # tN2kMsg::MaxDataLen, from the property text
@@ -29,6 +29,24 @@ def gen(seed, tier):
             cases.append(random_history_api(r, n_ops=40))       # public calls of the application mixed in: any device index, any argument
         for _ in range(100):
             cases.append(c07_gen.d14_history(r))
+        # configuration calls in unusual but legal places: SetDeviceCount after the device table exists (before Open(): it must be ignored,
+        # seed C07-15) and transmit lists that grow after the sequence-counter table of a device was allocated by its first fast-packet
+        # send, followed by more distinct fast-packet PGNs than the table has cells (seed C07-14); then ordinary traffic
+        FPS = [129029, 127489, 128275, 130577, 129540, 130074, 129038, 129039, 129041, 129794, 129809, 129810]
+        for _ in range(24):
+            h = c07_gen.history(r, max_ops=30, ndev=r.choice([1, 1, 2]), mode=r.choice([1, 2]), cold=True)
+            head, ops = h.split(' | ', 1)
+            cases.append(head + ' | Z 2 %d ; %s ; %s' % (r.choice([2, 3, 9]), ops, ' ; '.join([iso_request(50, 255, 126996), 'P', iso_request(50, 255, 60928), 'P', 'T 300', 'P', 'P'])))
+        for _ in range(24):
+            ndev = r.choice([1, 2, 3])
+            i = r.randrange(ndev)
+            src = r.choice([22, 100])
+            first = r.sample(FPS, r.choice([0, 1, 2]))
+            send = lambda p: 'S %d 6 %d 15 255 0 %s' % (i, p, bytes(r.randrange(256) for _ in range(r.choice([9, 20, 40]))).hex())
+            ops = [send(r.choice(first + [126996]))]
+            ops += ['W t %d %s' % (i, ','.join(str(p) for p in r.sample(FPS, r.choice([6, 8, 12]))))]
+            ops += [send(p) for p in r.sample(FPS, 9)] + ['P', 'W t %d -' % i] + [send(p) for p in r.sample(FPS, 4)] + ['P']
+            cases.append('NODE mode=1 ndev=%d src=%d q=40 slots=5 t0=5000%s | %s' % (ndev, src, (' tx%d=%s' % (i, ','.join(map(str, first)))) if first else '', ' ; '.join(ops)))
     return cases
 
 
